@@ -115,11 +115,17 @@ def cmp_eval(case):
                nstack=len(stack))
 
 
+def prev_hash(spk, amount, txc):
+    if txc.get("prevhash"):
+        return bytes.fromhex(txc["prevhash"])     # fixed outpoint: lets a script contain a signature over itself
+    credit = dict(version=1, lock=0, ins=[(b"\0" * 32, 0xffffffff, b"\x00\x00", 0xffffffff, [])], outs=[(amount, spk)])
+    return R.dsha(R.ser(credit, False))
+
+
 def impl_spend(ss, spk, wit, amount, flags, txc):
     P = pyc()
     Tx = P["Tx"]
-    credit = dict(version=1, lock=0, ins=[(b"\0" * 32, 0xffffffff, b"\x00\x00", 0xffffffff, [])], outs=[(amount, spk)])
-    h = R.dsha(R.ser(credit, False))
+    h = prev_hash(spk, amount, txc)
     try:
         t = Tx(txc["version"], [Tx.TxIn(h, 0, ss, txc["seq"])], [Tx.TxOut(amount, b"")], txc["lock"])
         t.txs_in[0].witness = list(wit)
@@ -141,8 +147,7 @@ TXS0 = dict(version=1, lock=0, seq=0xffffffff)
 
 
 def ref_spend(ss, spk, wit, amount, flags, txc):
-    credit = dict(version=1, lock=0, ins=[(b"\0" * 32, 0xffffffff, b"\x00\x00", 0xffffffff, [])], outs=[(amount, spk)])
-    h = R.dsha(R.ser(credit, False))
+    h = prev_hash(spk, amount, txc)
     tx = dict(version=txc["version"], lock=txc["lock"], ins=[(h, 0, ss, txc["seq"], list(wit))], outs=[(amount, b"")])
     ck = R.Checker(tx, 0, amount)
     try:
@@ -700,35 +705,46 @@ class L4(_Base):
                         for f in (0, R.NULLFAIL):
                             c = self._spend_case(mode, script, args, f, "codesep", dict(shape=nm, code=ci, mode=mode), amount)
                             yield c, cmp_spend(c)
-            # FindAndDelete: the scriptPubKey contains a push of its own signature (legacy only)
-            if mode == "bare":
+            # FindAndDelete: the script contains a push of a signature it checks (legacy sigversions only).  The outpoint
+            # is fixed (not derived from the script) so that such a signature exists without a fixed point.
+            if mode != "p2wsh":
+                PH = "5c" * 32
+                txc = dict(version=1, lock=0, seq=0xffffffff, prevhash=PH)
+
+                def zfor(code, ht):
+                    tx = dict(version=1, lock=0, ins=[(bytes.fromhex(PH), 0, b"", 0xffffffff, [])], outs=[(0, b"")])
+                    return R.digest_be(R.sighash_legacy(tx, 0, code, ht))
+                PKc = R.push_data(pk)
                 for ht in (1, 2, 3, 0x81):
-                    base = R.push_data(pk) + b"\xac"
-                    # signature over the script with the embedded push deleted: compute by fixed point - sig signs `base`-like code
-                    tx0 = R.credit_spend(b"", b"", [], 0)
-                    # the spk changes the prevout hash, so iterate: choose sig for code=base, embed, recompute outpoint
-                    sig = None
-                    for embed in ("embedded", "embedded-twice", "embedded-pd1"):
-                        # sign first with a placeholder spk, then fix up: digest depends on spk only through the outpoint hash
-                        # -> solve by signing for each candidate until stable (2 rounds suffice because sig is deterministic in z)
-                        cur = b"\x00" * 72
-                        for _ in range(4):
-                            if embed == "embedded":
-                                spk = R.push_data(cur) + b"\x75" + base
-                            elif embed == "embedded-twice":
-                                spk = R.push_data(cur) + b"\x75" + R.push_data(cur) + b"\x75" + base
-                            else:
-                                spk = b"\x4c" + bytes([len(cur)]) + cur + b"\x75" + base
-                            tx = R.credit_spend(b"", spk, [], 0)
-                            code, _n = R.find_and_delete(spk, R.push_data(cur))
-                            z = R.digest_be(R.sighash_legacy(tx, 0, code, ht))
-                            nxt = R.der_sig(*R.ecdsa_sign(d, z)) + bytes([ht])
-                            if nxt == cur:
-                                break
-                            cur = nxt
-                        c = dict(k="spend", layer="L4", ck="findanddelete", focus="findanddelete", ss=R.push_data(cur).hex(), spk=spk.hex(),
-                                 wit=[], flags=0, amount=0, tags=dict(embed=embed, ht=ht, converged=(nxt == cur)))
-                        yield c, cmp_spend(c)
+                    HT = bytes([ht])
+                    tail1 = b"\x75" + PKc + b"\xac"
+                    sig1 = R.der_sig(*R.ecdsa_sign(d, zfor(tail1, ht))) + HT
+                    shapes2 = {"embedded": (R.push_data(sig1) + tail1, [sig1]),
+                               "embedded-pd1-not-deleted": (b"\x4c" + bytes([len(sig1)]) + sig1 + tail1, [sig1]),
+                               "embedded-inside-bigger": (R.push_data(sig1 + b"\x00") + tail1, [sig1])}
+                    tail2 = b"\x6d" + PKc + b"\xac"
+                    sig2 = R.der_sig(*R.ecdsa_sign(d, zfor(tail2, ht))) + HT
+                    shapes2["embedded-twice"] = (R.push_data(sig2) * 2 + tail2, [sig2])
+                    # two signature operations in one script, only the first one's signature is embedded
+                    tailA = b"\x75" + PKc + b"\xad" + PKc + b"\xac"
+                    sigA = R.der_sig(*R.ecdsa_sign(d, zfor(tailA, ht))) + HT
+                    full = R.push_data(sigA) + tailA
+                    sigB = R.der_sig(*R.ecdsa_sign(d, zfor(full, ht))) + HT
+                    shapes2["two-ops"] = (full, [sigB, sigA])
+                    shapes2["two-ops-swapped"] = (full, [sigA, sigB])
+                    sigB_wrong = R.der_sig(*R.ecdsa_sign(d, zfor(tailA, ht))) + HT     # what a too-coarse digest cache would accept
+                    shapes2["two-ops-same-digest"] = (full, [sigB_wrong, sigA])
+                    # multisig 1-of-1 followed by checksig, the multisig signature embedded
+                    tailM = b"\x75\x51" + PKc + b"\x51\xaf" + PKc + b"\xac"
+                    sigM = R.der_sig(*R.ecdsa_sign(d, zfor(tailM, ht))) + HT
+                    fullM = R.push_data(sigM) + tailM
+                    sigN = R.der_sig(*R.ecdsa_sign(d, zfor(fullM, ht))) + HT
+                    shapes2["multisig-then-checksig"] = (fullM, [sigN, b"", sigM])
+                    for nm, (script, args) in shapes2.items():
+                        for f in (0, R.NULLFAIL, R.STRICTENC | R.DERSIG | R.LOW_S):
+                            c = self._spend_case(mode, script, args, f, "findanddelete", dict(shape=nm, ht=ht, mode=mode), 0)
+                            c["tx"] = txc
+                            yield c, cmp_spend(c)
         elif fam == "amount":
             d, Q = keys[0]
             pk = R.sec(Q)
@@ -834,9 +850,12 @@ class L5(_Base):
             h = R.hash160(redeem)
             looks = {"pd1-form": b"\xa9\x4c\x14" + h + b"\x87", "len19": b"\xa9\x13" + h[:19] + b"\x87\x61", "len21": b"\xa9\x15" + h + b"\x00\x87",
                      "equalverify": b"\xa9\x14" + h + b"\x88", "hash256": b"\xaa\x14" + h + b"\x87", "trailing-nop": b"\xa9\x14" + h + b"\x87\x61",
-                     "exact": b"\xa9\x14" + h + b"\x87", "23-bytes-other": b"\xa9\x13" + h[:19] + b"\x75\x87"[:2]}
+                     "exact": b"\xa9\x14" + h + b"\x87", "23-bytes-other": b"\xa9\x13" + h[:19] + b"\x75\x87"[:2],
+                     "23-bytes-push21": b"\xa9\x15" + h + b"\x87", "23-bytes-push21-zero": b"\xa9\x15" + b"\x00" * 20 + b"\x87",
+                     "23-bytes-pd1-19": b"\xa9\x4c\x13" + h[:19] + b"\x87", "23-bytes-hash-first": b"\xa9\x01\x14" + h + b"\x87"[:0] + b"\x87"[:1][:0]}
             for nm, spk in looks.items():
-                for sname, ss in (("push", push(redeem)), ("push0", push(b"\x00")), ("one+push", b"\x51" + push(redeem))):
+                for sname, ss in (("push", push(redeem)), ("push0", push(b"\x00")), ("one+push", b"\x51" + push(redeem)), ("one", b"\x51"),
+                                  ("empty", b""), ("push-true-script", push(b"\x51\x51"))):
                     for f in FS:
                         c = dict(k="spend", layer="L5", ck="p2sh-lookalike", focus=nm, ss=ss.hex(), spk=spk.hex(), wit=[], flags=f, tags=dict(spk=nm, ss=sname))
                         yield c, cmp_spend(c)
@@ -864,9 +883,20 @@ class L6(_Base):
             for lock in TXLOCK:
                 for ver in TXVER:
                     yield dict(op=op, lock=lock, ver=ver)
+                    yield dict(op=op, lock=lock, ver=ver, spend=1)
 
     def execute(self, u):
         operands = [R.num_encode(v) for v in LT] + [b"\x00", b"\x05\x00", b"\x01\x00\x00\x00\x00\x00", b"\xff\xff\xff\xff\xff\x7f"]
+        if u.get("spend"):
+            # the same product through Tx.check_solution, so that the transaction context is the one pycoin builds itself
+            for seq in TXSEQ:
+                for o in operands:
+                    spk = (R.push_data(o) if o else b"\x00") + bytes([u["op"]]) + b"\x75\x51"
+                    for f in (R.CLTV | R.CSV, R.CLTV | R.CSV | R.P2SH | R.WITNESS | R.MINIMALDATA):
+                        c = dict(k="spend", layer="L6", ck=opname(u["op"]) + "-spend", focus=opname(u["op"]), ss="", spk=spk.hex(), wit=[], flags=f,
+                                 tx=dict(version=u["ver"], lock=u["lock"], seq=seq))
+                        yield c, cmp_spend(c)
+            return
         for seq in TXSEQ:
             for o in operands:
                 for m in range(16):
